@@ -96,7 +96,7 @@ def run (np : Nat) (numKind : String) (re : String) (toks : List Tok) : String :
   let emptySt : RankState := ⟨[], [], 0, 0⟩
   let asg1 : List (List Int) := (List.range np).map fun p =>
     if stateful then newGlobals (w2.getD p emptySt) (r1.1.getD p emptySt) else []
-  let a := w2.mapIdx fun p st => "A(" ++ showRank [] false none st ++ ")"
+  let a := w2.mapIdx fun _ st => "A(" ++ showRank [] false none st ++ ")"
   let b := r1.1.mapIdx fun p st => "B(" ++ showRank (asg1.getD p []) true (nsOf r1.2 p) st ++ ")"
   let c : List String :=
     if re = "0" then List.replicate np ""
